@@ -653,6 +653,21 @@ func evmKeeperFacts(keeper, vm, utils *packages.Package) {
 	facts["ethereumTxCalls"] = callsIn(et)
 	at := findMethod(keeper, "Keeper", "ApplyTransaction")
 	facts["applyTransactionCalls"] = callsIn(at)
+	// the `commit` argument at every call site of ApplyMessageWithConfig in the keeper package
+	var commits []string
+	for _, f := range keeper.Syntax {
+		fname := keeper.Fset.Position(f.Pos()).Filename
+		if isTest(fname) {
+			continue
+		}
+		walkWithFunc(f, func(n ast.Node, fun string) {
+			if ce, ok := n.(*ast.CallExpr); ok && strings.HasSuffix(exprString(ce.Fun), "ApplyMessageWithConfig") && len(ce.Args) == 6 {
+				commits = append(commits, fun+":"+exprString(ce.Args[3]))
+			}
+		})
+	}
+	sort.Strings(commits)
+	facts["applyMessageCommitArgs"] = commits
 }
 
 func feemarketFacts(p *packages.Package) {
